@@ -99,6 +99,10 @@ impl crate::gates::Gate for Loop
     fn conjugate(&self, ops: &mut [PauliOp]) -> crate::error::Result<bool>
     {
         self.check_nr_bits(ops.len())?;
+        if !self.is_stabilizer()
+        {
+            return Err(crate::error::Error::NotAStabilizer(String::from(self.description())));
+        }
         let mut flip_sign = false;
         for _ in 0..self.nr_iterations
         {
